@@ -183,11 +183,11 @@ def cache_coherence(prog: Program, rep: Report) -> None:
                     pass
         return n
 
-    upd = prog.func("model.Model.update")
+    upd = prog.view("model.Model.update")
     nbad = check_words(upd, None, "step protocol")
     if nbad == 0:
         rep.ok(rule, upd.qual, "no length-changing call between forcing.update and the users of its caches", "all paths", upd.loc())
-    init = prog.func("model.Model.__init__")
+    init = prog.view("model.Model.__init__")
     block = [n for n in init.node.body if isinstance(n, ast.If) and "warm_start" in unparse(n.test)]
     if not block:
         raise AnalysisError("Model.__init__: warm block not found")
@@ -591,7 +591,7 @@ def clock_access(prog: Program, rep: Report) -> None:
 def fields_independent_of_particles(prog: Program, rep: Report) -> None:
     """R14.5: the gridded forcing (self.fields, file position) evolves independently of the particle list."""
     rule = "R14.5"
-    fi = prog.role_func("forcing", "update")
+    fi = prog.lview(prog.role_func("forcing", "update"), keep=("_read_velocity", "_read_field", "_select_file"))
     env = prog.type_env(fi)
     part = set(statefx.local_state_aliases(prog, fi))  # X, Y, Z ...
     for node in walk_no_nested(fi.node):
